@@ -37,7 +37,9 @@ CONFIGS = {
               {"tag": "C", "id": 16777251, "peers": ["peer1.verif.example", "peer2.verif.example",
                                                       "peer3.other.example"]}]),
     "one_app_one_of_two_peers": dict(
-        peers=[{"name": "peer1.verif.example"}, {"name": "peer2.verif.example"}],
+        # peer 3 is known to the node but no application serves it or its realm
+        peers=[{"name": "peer1.verif.example"}, {"name": "peer2.verif.example"},
+               {"name": "peer3.unserved.example", "realm": "unserved.example"}],
         apps=[{"tag": "A", "id": 4, "peers": ["peer1.verif.example"]}]),
     # additional realms that are routed already when the application is registered: shared by two applications,
     # equal to another peer's realm, equal to the node's own realm while the peer sits elsewhere
@@ -383,7 +385,7 @@ def run_shard(spec):
             cfg = CONFIGS[cfg_name]
             peer_names = [p["name"] for p in cfg["peers"]]
             app_ids = sorted({a["id"] for a in cfg["apps"]}) + [99]
-            realms = [R1, R2, RX, "foreign.example"]
+            realms = [R1, R2, RX, "foreign.example", "unserved.example"]
             for ci, cls in enumerate(classes):
                 if ci % spec["parts"] != spec["part"]:
                     continue
